@@ -20,6 +20,8 @@ import builtins
 ROOT = "/simfs"
 CWD = "/simfs/cwd"
 FD_BASE = 1000000
+FD_STDOUT = FD_BASE - 1        # what the simulated sys.stdout.fileno() returns
+FD_STDERR = FD_BASE - 2
 
 
 class Inode:
@@ -55,6 +57,7 @@ class VFS:
         self.active = False             # CLI run in progress => relative paths are virtual
         self.violations = []            # clobber events observed at the seam
         self.fds = {}
+        self.std_streams = {}           # reserved fd -> simulated stream object (set by the CLI runner)
         self._next_fd = FD_BASE
         self._saved = []
         self.mkdir_p(CWD)
@@ -62,7 +65,7 @@ class VFS:
     # ------------------------------------------------------------------ path handling
     def is_virtual(self, path):
         if isinstance(path, int):
-            return path >= FD_BASE
+            return path >= FD_BASE - 2
         try:
             p = os.fspath(path)
         except TypeError:
@@ -310,12 +313,18 @@ class VFS:
         return len(chunk)
 
     def os_write(self, fd, data):
+        if fd in self.std_streams:
+            self.std_streams[fd].write(bytes(data).decode("utf-8", "replace"))
+            return len(data)
         h = self.fds[fd]
         n = self.write_node(h["node"], h["pos"], bytes(data), h["path"])
         h["pos"] += n
         return n
 
     def os_close(self, fd):
+        if fd in self.std_streams:
+            self.std_streams[fd].redirected = "closed"
+            return None
         h = self.fds.get(fd)
         if h is None:
             raise _err(errno.EBADF)
@@ -426,7 +435,7 @@ class VFS:
         v = self
         o = {n: getattr(os, n) for n in ("stat", "lstat", "access", "open", "write", "close", "replace", "rename",
                                           "remove", "unlink", "mkdir", "listdir", "fdopen", "link", "fsync", "chmod",
-                                          "readlink", "symlink")}
+                                          "readlink", "symlink", "dup2", "makedirs")}
         o_open, o_ioopen = builtins.open, io.open
         self._orig = o
 
@@ -505,6 +514,33 @@ class VFS:
                 return v.py_open(fd, mode)
             return o["fdopen"](fd, *a, **kw)
 
+        def w_dup2(fd, fd2, inheritable=True):
+            if fd2 in v.std_streams:
+                # e.g. the documented SIGPIPE recipe: os.dup2(devnull, sys.stdout.fileno())
+                v.std_streams[fd2].redirected = "fd %r" % (fd,)
+                return fd2
+            return o["dup2"](fd, fd2, inheritable)
+
+        def w_readlink(path, *a, **kw):
+            if v.is_virtual(path):
+                d, name, node, _ = v._walk(path, follow=False)
+                if node is None:
+                    raise _err(errno.ENOENT, os.fspath(path))
+                if node.kind != "link":
+                    raise _err(errno.EINVAL, os.fspath(path))
+                return node.target
+            return o["readlink"](path, *a, **kw)
+
+        def w_symlink(src, dst, *a, **kw):
+            if v.is_virtual(dst):
+                v._boundary("symlink", dst)
+                d, name, node, _ = v._walk(dst, follow=False)
+                if node is not None:
+                    raise _err(errno.EEXIST, os.fspath(dst))
+                d.entries[name] = Inode("link", 0o777, v.actor, target=os.fspath(src))
+                return None
+            return o["symlink"](src, dst, *a, **kw)
+
         def w_open(file, *a, **kw):
             if v.is_virtual(file):
                 return v.py_open(file, *a, **kw)
@@ -514,7 +550,8 @@ class VFS:
                    (os, "write", w_write), (os, "close", w_close), (os, "replace", w_replace),
                    (os, "rename", w_replace), (os, "remove", w_unlink), (os, "unlink", w_unlink),
                    (os, "mkdir", w_mkdir), (os, "listdir", w_listdir), (os, "fdopen", w_fdopen),
-                   (os, "link", w_link), (os, "fsync", w_fsync), (os, "chmod", w_chmod),
+                   (os, "link", w_link), (os, "fsync", w_fsync), (os, "chmod", w_chmod), (os, "dup2", w_dup2),
+                   (os, "readlink", w_readlink), (os, "symlink", w_symlink),
                    (builtins, "open", w_open), (io, "open", w_open)]
         for mod, name, fn in patches:
             self._saved.append((mod, name, getattr(mod, name)))
